@@ -171,6 +171,56 @@ func TestVerifDriver(t *testing.T) {
 						res = fmt.Sprintf("OVER-BUDGET admitted=%d max_requests=%d round=%d", worst, mx, worstRound)
 					}
 				}
+			case "reopen":
+				// reopen <callers> <rounds>: per round a fresh breaker (one trial allowed) is opened by one failure, the
+				// (virtual) timeout elapses, and <callers> goroutines released together call Execute with a function that
+				// fails at once. The first trial re-opens the breaker with a fresh timeout in that same instant, so
+				// exactly one call may reach the function per round, whatever the callers had read before.
+				if len(w) == 4 {
+					callers, _ := strconv.Atoi(w[2])
+					rounds, _ := strconv.Atoi(w[3])
+					if callers < 2 || callers > 64 || rounds < 1 || rounds > 100000 {
+						break
+					}
+					worst, worstRound := 0, -1
+					for r := 0; r < rounds; r++ {
+						verifclock.Set(0)
+						b := NewCircuitBreaker(Settings{Name: "r", FailureThreshold: 1, SuccessThreshold: 1,
+							MaxRequests: 1, Interval: time.Hour, Timeout: time.Millisecond})
+						_ = b.Execute(func() error { return fmt.Errorf("boom") })
+						verifclock.Set(int64(2 * time.Millisecond))
+						var ran int32
+						var ready, goFlag int32
+						var all sync.WaitGroup
+						for c := 0; c < callers; c++ {
+							all.Add(1)
+							go func() {
+								defer all.Done()
+								atomic.AddInt32(&ready, 1)
+								for atomic.LoadInt32(&goFlag) == 0 {
+								}
+								_ = b.Execute(func() error {
+									atomic.AddInt32(&ran, 1)
+									return fmt.Errorf("still down")
+								})
+							}()
+						}
+						for atomic.LoadInt32(&ready) < int32(callers) {
+							runtime.Gosched()
+						}
+						atomic.StoreInt32(&goFlag, 1)
+						all.Wait()
+						if n := int(atomic.LoadInt32(&ran)); n > worst {
+							worst, worstRound = n, r
+						}
+					}
+					if worst <= 1 {
+						res = "single-trial"
+					} else {
+						res = fmt.Sprintf("EXTRA-TRIALS backend contacted %d times in one instant although the first trial had re-opened the breaker (round %d)", worst, worstRound)
+						res = strings.ReplaceAll(res, " ", "_")
+					}
+				}
 			case "notifyrace":
 				// notifyrace <callers> <rounds>: state changes made by concurrent requests while an
 				// observer (which reads the breaker, as the balancer's does) is still being notified
